@@ -121,12 +121,11 @@ Load(d) ==
 
 LoadMap(d) == Load(d).m
 
-\* As built, several failed block writes in a row leave a run of torn pieces at the end of the file.  What the
-\* reader makes of their concatenation depends on the bytes: end of file after the last complete block, or an
-\* error.  TornRunPrefix(d) is the first outcome (only meaningful when TornRun(d)).
+\* As built, torn pieces can end up in the middle of the file (blocks appended behind them).  What the reader
+\* makes of the bytes behind the first torn piece depends on the bytes: an error (checksum / garbage header), or
+\* the end of the file (the garbage header claims more than is left).  TornRunPrefix(d) is the second outcome.
 FirstTorn(ch) == IF \E i \in DOMAIN ch : IsTorn(ch[i]) THEN CHOOSE i \in DOMAIN ch : IsTorn(ch[i]) /\ \A j \in 1..(i - 1) : ~IsTorn(ch[j]) ELSE 0
-TornRun(d) == /\ d.ex /\ d.hd = 2 /\ ~d.clob /\ FirstTorn(d.ch) > 0 /\ FirstTorn(d.ch) < Len(d.ch)
-              /\ \A i \in FirstTorn(d.ch)..Len(d.ch) : IsTorn(d.ch[i])
+TornRun(d) == d.ex /\ d.hd = 2 /\ ~d.clob /\ FirstTorn(d.ch) > 0 /\ FirstTorn(d.ch) < Len(d.ch)
 TornRunPrefix(d) == Scan(SubSeq(d.ch, 1, FirstTorn(d.ch) - 1), 1, Empty)
 \* the load failed although the file has a complete header: stored data became unreadable
 Unreadable(d) == d.ex /\ d.hd = 2 /\ ~Load(d).ok
